@@ -35,6 +35,9 @@ pub enum Target {
     Event,
     /// the n-th outstanding request (mapped onto the outstanding ones)
     Response(u16),
+    /// an id that names no outstanding request: a notification's, one that was never handed out, one
+    /// whose one-shot request has been answered (mapped onto the ids 0..=max+2 that are not outstanding)
+    Stray(u16),
 }
 #[derive(Debug, Clone, PartialEq, Eq, Hash, Serialize, Deserialize)]
 pub struct Fault {
@@ -59,6 +62,8 @@ pub struct FaultInfo {
     /// a mutated valid encoding arrived with >= 2 other requests outstanding and >= 3 actions followed
     pub deep: bool,
     pub max_alloc: u64,
+    /// responses offered under an id that names no outstanding request
+    pub stray: usize,
 }
 
 /// bytes allocated by the current thread so far; installed by the check binary (counting allocator)
@@ -199,6 +204,23 @@ pub fn run_fault_case(c: &FaultCase) -> Result<FaultInfo, String> {
                                 open.insert(op.path.clone(), op);
                             }
                         }
+                    }
+                }
+                Target::Stray(pk) => {
+                    let cands: Vec<u32> = (0..=a.max_id + 2).filter(|id| !a.outstanding_ids.contains(id)).collect();
+                    let id = cands[pick(*pk, cands.len())];
+                    nonce += 1;
+                    let bytes = mutate(encode_out(c.json, &Out::new(nonce)), &f.mutation);
+                    info.offered += 1;
+                    info.stray += 1;
+                    let accepted = vkit::panics::catch(|| a.respond_bytes_to_id(id, &bytes)).map_err(|p| format!("[panic] handle_response for id {id} (no outstanding request) panicked on {} bytes: {p}", bytes.len()))??;
+                    bridge_used = probe.map(|p| p() - before);
+                    if accepted {
+                        return Err(format!("[stray-accepted] the bridge accepted a response for id {id}, which names no outstanding request (outstanding: {:?})", a.outstanding_ids));
+                    }
+                    info.rejected += 1;
+                    if norm_view(a.view()?) != norm_view(t.view()?) {
+                        return Err("a rejected response to no outstanding request changed the view".into());
                     }
                 }
                 Target::Response(pk) => {
